@@ -497,8 +497,8 @@ NETQ = z3.Function('NET_FILLED', SO, K, K, R)         # ghost: signed quantity f
 FILLCOST = z3.Function('FILL_COST', O, R)             # ghost: cost of the fill of an executed order
 ALLIN = z3.Function('ALL_OWNERS_EXIST', SO, B)        # ghost: every order of the sequence belongs to an existing portfolio
 U = 'SimulatedBroker.update#'
-L_MARK_P, L_MARK_A = U + 'for self.portfolios#0', U + 'for self.portfolios[portfolio].pos_handler.positions#0'
-L_DRAIN_P, L_DRAIN_W, L_EXEC = U + 'for self.portfolios#1', U + 'while not self.open_orders[portfolio].empty()#0', U + 'for sorted_orders#0'
+L_MARK_P, L_MARK_A = U + 'for self.portfolios#0', U + 'for self.portfolios[_].pos_handler.positions#0'
+L_DRAIN_P, L_DRAIN_W, L_EXEC = U + 'for self.portfolios#1', U + 'while not self.open_orders[_].empty()#0', U + 'for _#0'
 
 
 def sel2(arr, p, a):
@@ -577,7 +577,9 @@ class MarkInner:
 
     def __init__(self, G, lid, it, env):
         self.G, self.W = G, G.W
-        self.k = liftk(env['portfolio'])
+        if not hasattr(it, 'owner'):
+            raise Unmodelled('marking loop does not iterate the positions of a portfolio')
+        self.k = liftk(it.owner)           # bound by role (the portfolio whose positions are iterated), not by local name
         self.S = self.W.snapshot()
         self.dom = z3.Select(self.W.held, self.k)
 
@@ -630,13 +632,20 @@ class MarkInner:
         return tuple(env.get(n) for n in names)
 
 
-def _orders(env, W):
-    o = env.get('orders')
+def _acc_name(lid, state):
+    """the drain loops carry exactly ONE accumulator (the batch list), whatever the code calls it"""
+    if len(state) != 1:
+        raise Unmodelled('loop %s carries state %s; its invariant covers exactly one accumulator' % (lid, ', '.join(state) or '(none)'))
+    return state[0]
+
+
+def _orders(env, W, name='orders'):
+    o = env.get(name)
     if isinstance(o, OrdersList):
         return o
     if isinstance(o, list) and not o:
         return OrdersList(W)
-    raise Unmodelled('unexpected value of `orders`')
+    raise Unmodelled('unexpected value of the batch accumulator `%s`' % name)
 
 
 class DrainOuter:
@@ -658,24 +667,24 @@ class DrainOuter:
 
     def havoc(self, env, names, state=()):
         c = self.G.c
-        heap.check_state(L_DRAIN_P, state, ('orders',))
+        self.acc = _acc_name(L_DRAIN_P, state)
         c.assume(ALLIN(NOSEQ))
-        _ob(c, '#drain-portfolios:init', self.inv(_orders(env, self.W), EMPTY, [self.G.p0]))
+        _ob(c, '#drain-portfolios:init', self.inv(_orders(env, self.W, self.acc), EMPTY, [self.G.p0]))
         self.done = c.fresh('drained', AKB)
         self.W.havoc(['Q'], 'drain')
         new = OrdersList(self.W, c.fresh('orders', SO))
-        return tuple(new if n == 'orders' else env.get(n) for n in names)
+        return tuple(new if n == self.acc else env.get(n) for n in names)
 
     def more(self, env):
         c, W = self.G.c, self.W
-        c.assume(self.inv(env['orders'], self.done, [self.G.p0]))
+        c.assume(self.inv(env[self.acc], self.done, [self.G.p0]))
         d = c.decide(self.done != W.pdom)
         if d:
             k = c.fresh('drain_p', K)
             c.assume(z3.And(z3.Select(W.pdom, k), z3.Not(z3.Select(self.done, k))))
-            c.assume(self.inv(env['orders'], self.done, [k]))
+            c.assume(self.inv(env[self.acc], self.done, [k]))
             c.assume(ALLOWNED(z3.Select(self.S['Q'], k), k))          # queue invariant of portfolio k
-            self.k = k
+            self.k = self.G.cur_k = k
         else:
             c.assume(self.done == W.pdom)
         return d
@@ -684,7 +693,7 @@ class DrainOuter:
         return SymKey(self.k)
 
     def preserved(self, env):
-        _ob(self.G.c, '#drain-portfolios:preserved', self.inv(env['orders'], z3.Store(self.done, self.k, True), [self.G.p0, self.k]))
+        _ob(self.G.c, '#drain-portfolios:preserved', self.inv(env[self.acc], z3.Store(self.done, self.k, True), [self.G.p0, self.k]))
         raise Abort()
 
     def exit(self, env, names):
@@ -696,9 +705,11 @@ class DrainInner:
 
     def __init__(self, G, lid, it, env):
         self.G, self.W = G, G.W
-        self.k = liftk(env['portfolio'])
+        if getattr(G, 'cur_k', None) is None:
+            raise Unmodelled('queue-draining loop outside the loop over portfolios')
+        self.k = G.cur_k                   # bound by role: the portfolio of the enclosing iteration
         self.S = self.W.snapshot()
-        self.o3 = _orders(env, self.W)
+        self.env0 = env
 
     def inv(self, orders):
         W, S, G, k = self.W, self.S, self.G, self.k
@@ -710,19 +721,20 @@ class DrainInner:
 
     def havoc(self, env, names, state=()):
         c = self.G.c
-        heap.check_state(L_DRAIN_W, state, ('orders',))
+        self.acc = _acc_name(L_DRAIN_W, state)
+        self.o3 = _orders(env, self.W, self.acc)
         _ob(c, '#drain-queue:init', self.inv(self.o3))
         self.W.havoc(['Q'], 'drainW')
         new = OrdersList(self.W, c.fresh('orders_w', SO))
-        return tuple(new if n == 'orders' else env.get(n) for n in names)
+        return tuple(new if n == self.acc else env.get(n) for n in names)
 
     def assume_inv(self, env):
-        self.G.c.assume(self.inv(env['orders']))
-        self.before = env['orders'].seq
+        self.G.c.assume(self.inv(env[self.acc]))
+        self.before = env[self.acc].seq
 
     def preserved(self, env):
         c = self.G.c
-        o = env['orders']
+        o = env[self.acc]
         # ghost unfolding: the appended order belongs to the existing portfolio k
         _ob(c, '#drain-queue:preserved', z3.Implies(ALLIN(o.seq) == z3.And(ALLIN(self.before), z3.Select(self.W.pdom, self.k)), self.inv(o)))
         raise Abort()
